@@ -75,6 +75,24 @@ structure State (W : Type) where
 
 variable {W : Type}
 
+/-- `autoimported[k] = b` -/
+def State.withAtt (st : State W) (k : Dotted) (b : Bool) : State W :=
+  { st with attempted := (k, b) :: st.attempted }
+
+def State.withW (st : State W) (w : W) : State W := { st with w := w }
+
+@[simp] theorem State.withAtt_nss (st : State W) (k : Dotted) (b : Bool) : (st.withAtt k b).nss = st.nss := rfl
+@[simp] theorem State.withAtt_w (st : State W) (k : Dotted) (b : Bool) : (st.withAtt k b).w = st.w := rfl
+@[simp] theorem State.withAtt_failed (st : State W) (k : Dotted) (b : Bool) : (st.withAtt k b).failed = st.failed := rfl
+@[simp] theorem State.withAtt_log (st : State W) (k : Dotted) (b : Bool) : (st.withAtt k b).log = st.log := rfl
+@[simp] theorem State.withAtt_attempted (st : State W) (k : Dotted) (b : Bool) :
+    (st.withAtt k b).attempted = (k, b) :: st.attempted := rfl
+@[simp] theorem State.withW_nss (st : State W) (w : W) : (st.withW w).nss = st.nss := rfl
+@[simp] theorem State.withW_w (st : State W) (w : W) : (st.withW w).w = w := rfl
+@[simp] theorem State.withW_failed (st : State W) (w : W) : (st.withW w).failed = st.failed := rfl
+@[simp] theorem State.withW_log (st : State W) (w : W) : (st.withW w).log = st.log := rfl
+@[simp] theorem State.withW_attempted (st : State W) (w : W) : (st.withW w).attempted = st.attempted := rfl
+
 /-! ### symbol_needs_import -/
 
 inductive Walk where
@@ -165,12 +183,10 @@ def ancestorLoop (U : Univ W) (tgt : Nat) : List Dotted → State W → Bool × 
     else if st.attempted.lookup p == some false then (false, st)
     else
       let e := U.exists_ st.w p
-      let st1 := { st with w := e.2 }
-      if !e.1 then (false, { st1 with attempted := (p, false) :: st1.attempted })
+      if !e.1 then (false, (st.withW e.2).withAtt p false)
       else
-        let r := tryImport U ⟨p, p⟩ tgt true st1
-        let st2 := { r.2 with attempted := (p, r.1) :: r.2.attempted }
-        if !r.1 then (false, st2) else ancestorLoop U tgt ps st2
+        let r := tryImport U ⟨p, p⟩ tgt true (st.withW e.2)
+        if !r.1 then (false, r.2.withAtt p r.1) else ancestorLoop U tgt ps (r.2.withAtt p r.1)
 
 /-- `auto_import_symbol(fullname, namespaces, db, autoimported)`.
     `viaStr`: the caller passed `fullname` as a `str` (then `imp.import_as == fullname` can be
@@ -189,9 +205,9 @@ def autoImportSymbol (U : Univ W) (db : DB) (viaStr : Bool) (d : Dotted) (st : S
     | some [imp] =>
       if symbolNeedsImport U st.w st.nss imp.importAs then
         let r := tryImport U imp tgt false st
-        if !r.1 then (.ok false, { r.2 with attempted := (d, false) :: r.2.attempted })
+        if !r.1 then (.ok false, r.2.withAtt d false)
         else
-          let st2 := { r.2 with attempted := (imp.importAs, true) :: r.2.attempted }
+          let st2 := r.2.withAtt imp.importAs true
           if viaStr && imp.importAs == d then (.ok true, st2)
           else if imp.importAs != imp.fullname then (.ok true, st2)
           else
@@ -200,7 +216,7 @@ def autoImportSymbol (U : Univ W) (db : DB) (viaStr : Bool) (d : Dotted) (st : S
       else
         let r := ancestorLoop U tgt (prefixes d) st
         (.ok r.1, r.2)
-    | some (_ :: _ :: _) => (.ok false, { st with attempted := (d, false) :: st.attempted })
+    | some (_ :: _ :: _) => (.ok false, st.withAtt d false)
 
 /-! ### auto_import -/
 
